@@ -445,6 +445,14 @@ pub fn check_case(ctx: &mut Ctx, kind: &str, map: &Map, maxp: MaxpOpt, region: R
             ctx.violation(&full_sig, d, bytes_for_replay.as_deref());
         }
         Ok(Err((sig, detail))) => {
+            // the format-4 overflow probes have their own signature class (see the panic arm above):
+            // since /repo a6684da an unrepresentable format-4 subtable is a validation error from
+            // dump_table instead of a panic; from_mappings itself still has no error path.
+            let sig = if region == Region::Probe && sig == "dump_table:error" {
+                "format4-too-large:dump_table-error".to_string()
+            } else {
+                sig
+            };
             let d = json!({"detail": detail, "case": case_json(ctx)});
             ctx.violation(&sig, d, bytes_for_replay.as_deref());
         }
